@@ -58,11 +58,15 @@ def pyIntBody : Bytes → Bool → Option Nat → Option Nat
       else if c == 95 then (if prevDigit then pyIntBody t false acc else none)
       else none
 
+/-- optional sign: (negative?, rest) -/
+def pySign : Bytes → Bool × Bytes
+  | [] => (false, [])
+  | c :: t => if c == 43 then (false, t) else if c == 45 then (true, t) else (false, c :: t)
+
 def pyInt (s : Bytes) : Option Int :=
-  match strip s with
-  | [] => none
-  | 43 :: t => (pyIntBody t false none).map (fun n => (n : Int))
-  | 45 :: t => (pyIntBody t false none).map (fun n => -(n : Int))
-  | t => (pyIntBody t false none).map (fun n => (n : Int))
+  let sb := pySign (strip s)
+  match pyIntBody sb.2 false none with
+  | some n => some (if sb.1 then -(n : Int) else (n : Int))
+  | none => none
 
 end QcelVerif.PStr
